@@ -77,8 +77,9 @@ def lit_text(s, ins, rnd):
 class Printer:
     """prints a grammar; rnd=None gives the plain layout"""
 
-    def __init__(self, rnd=None, fancy=False):
+    def __init__(self, rnd=None, fancy=False, inline=None):
         self.rnd, self.fancy = rnd, fancy
+        self.inline = inline   # dict name -> body: print `>R` as the parenthesised body
 
     def gap(self):
         if not self.fancy or self.rnd is None:
@@ -118,6 +119,8 @@ class Printer:
         if k == "eoi":
             return "$"
         if k == "inc":
+            if self.inline is not None:
+                return "(" + self.expr(self.inline[e[1]]) + ")"
             return ">" + e[1]
         if k == "field":
             _, fn, boxed, typ = e
@@ -434,8 +437,9 @@ class GrammarGen:
             self.user_ws = False
         return self
 
-    def text(self, rnd=None, fancy=False):
-        return Printer(rnd, fancy).grammar(self.rules)
+    def text(self, rnd=None, fancy=False, inline=False):
+        inl = {r.name: r.body for r in self.rules if r.kind == "rule"} if inline else None
+        return Printer(rnd, fancy, inl).grammar(self.rules)
 
     # -- sentences -----------------------------------------------------------
     def rule_by_name(self, n):
